@@ -298,8 +298,8 @@ func mkCase(in c03In, idx int) Case {
 	rs := make([]string, len(runs))
 	for i, r := range runs {
 		b, _ := hex.DecodeString(r.Stdout)
-		if len(b) > 60000 {
-			b = b[:60000]
+		if len(b) > 12000 { // legitimate outputs of the generated corpora are far smaller; a longer one is cut (and then fails the comparison)
+			b = b[:12000]
 		}
 		rs[i] = fmt.Sprintf("run %s %s", Z(int64(r.Code)), H(b))
 	}
@@ -314,8 +314,8 @@ func mkCase(in c03In, idx int) Case {
 	for _, r := range runs {
 		if in.Cmd != "analyze" && r.Code >= 0 {
 			b, _ := hex.DecodeString(r.Snap)
-			if len(b) > 60000 {
-				b = b[:60000]
+			if len(b) > 12000 { // legitimate outputs of the generated corpora are far smaller; a longer one is cut (and then fails the comparison)
+				b = b[:12000]
 			}
 			snaps = append(snaps, "unhex "+H(b))
 		}
@@ -584,6 +584,22 @@ func burstIn(cmd string, r *Rng) c03In {
 	return in
 }
 
+// analyze where the FIRST sample is the strict maximum (and, mirrored, the strict minimum), and a single sample
+func extremeFirstIn(vals []int, single bool) c03In {
+	var b []byte
+	for i, v := range vals {
+		b = append(b, []byte(fmt.Sprintf("k%d|x|%d\n", i, v))...)
+	}
+	if !single {
+		b = append(b, []byte("z|x|-4000\n")...) // the last sample is the strict minimum
+	}
+	in := c03In{Cmd: "analyze", Regex: `^([^|]*)\|([^|]*)\|([^|]*)$`, Extract: []pipe.KPiece{{Kind: "group", Idx: 3}},
+		Args: []string{"-x"}, Files: []c03File{{Name: "in.txt", Content: hex.EncodeToString(b)}}}
+	in.Variants = []variant{{Workers: 1, Batch: 1000, Buffer: 1, Readers: 1, Gomaxprocs: 1}, {Workers: 1, Batch: 1, Buffer: 4, Readers: 1, Gomaxprocs: 4},
+		{Workers: 1, Batch: 2, Buffer: 1, Readers: 1, Gomaxprocs: 2, Stdin: true}, {Workers: 1, Batch: 1000, Buffer: 1, Readers: 1, Gomaxprocs: 16}}
+	return in
+}
+
 func main() {
 	Main(&Prop{
 		Name:   "C03",
@@ -603,6 +619,9 @@ func main() {
 			}
 			if n > 5 {
 				ins[4] = burstIn("spark", r)
+			}
+			if n > 7 {
+				ins[5], ins[6] = extremeFirstIn([]int{900, 30, 20, 30, 5}, false), extremeFirstIn([]int{7}, true)
 			}
 			// strict twins: the same input, only the byte-for-byte comparison of the snapshot texts (known finding)
 			for i := 0; i < n && len(ins) < n+n/6+2; i++ {
